@@ -95,6 +95,7 @@ type FnExec struct {
 	evalDepth     int
 	warns         []string
 	owned         map[Term]bool
+	wraps         map[Term]Val        // wrapper object -> the object it reads / writes through
 	hw            Term                // current allocation watermark: every object allocated so far has an id <= hw
 	boxed         map[Term]Val        // interface value term -> the boxed pointer value (pointers to local cells)
 	boxType       map[Term]types.Type // interface value term -> static type of the boxed value
